@@ -15,6 +15,8 @@ package main
 
 import (
 	"fmt"
+	"os"
+	"path/filepath"
 	"strconv"
 	"strings"
 	"time"
@@ -83,6 +85,41 @@ var foreignTail = []input{
 	{src: `println("gx is", gx); sq(gx)`, skel: "(S (C 1 (S)))"},
 	{src: `sq2 = func(a){a*a+gx}; for fi=0:2 {println(fi, sq2(fi))}`, skel: "(S (L 11 (S (C 1 (S))) (S (C 1 (S)))))"},
 	{src: `println(len(keys({"a":1,"b":2})), abs(-3), fact(4))`, skel: "(S)"},
+}
+
+// load()/save() family: small library files in a scratch directory under the run directory (load and save only
+// accept plain names in the current directory). lmode, set by a SUCCEEDING input, decides how the evaluation of
+// m.gr ends, so that the same file can fail and later load fine; walk.gr recurses `steps` levels.
+var libFiles = map[string]string{
+	"m.gr":     "if lmode==1 {deep(0)}\nif lmode==2 {pf(1)}\nif lmode==3 {1+nosuchvar}\nif lmode==4 {for true {}}\nprintln(\"m loaded\", lmode)\nlmode*10\n",
+	"walk.gr":  "walk(steps)\n",
+	"libok.gr": "lk = 5\nfunc lkf(a){a+lk}\nprintln(\"lib ok\")\nlkf(2)\n",
+}
+
+var loadPrelude = []input{
+	{src: `lmode = 0; steps = 100000; walk = func(n){if n<=0 {return 0}; 1+walk(n-1)}; pf = func(n){vpanic()}; gx = 42`, skel: "(S)"},
+}
+
+// (value of lmode / steps set by a succeeding input, the failing load)
+var loadFailing = []struct {
+	set  string
+	fail input
+}{
+	{`lmode = 1`, input{src: `load("m")`, skel: "(S (C 1 d))", fail: "depth-overflow-in-loaded-file"}},
+	{`lmode = 2`, input{src: `load("m")`, skel: "(S (C 1 (S p)))", fail: "panic-in-loaded-file"}},
+	{`lmode = 3`, input{src: `load("m")`, skel: "(S e)", fail: "error-in-loaded-file"}},
+	{`lmode = 4`, input{src: `load("m")`, skel: "(S e)", fail: "deadline-in-loaded-file", maxMs: 4 * time.Millisecond}},
+	{`steps = 100000`, input{src: `load("walk")`, skel: "(S (C 1 d))", fail: "depth-overflow-in-loaded-recursion"}},
+	{`lmode = 1`, input{src: `func ld(f){load(f)}; ld("m")`, skel: "(S (C 0 (S (C 1 d))))", fail: "depth-overflow-in-file-loaded-by-function", neutral: true}},
+}
+
+// later: the same file and other files load again, globals are still there, save() works
+var loadTail = []input{
+	{src: `lmode = 0; steps = 7`, skel: "(S)"},
+	{src: `println(load("m"))`, skel: "(S)"},
+	{src: `println(load("walk"))`, skel: "(S)"},
+	{src: `println(load("libok"), lkf(gx))`, skel: "(S)"},
+	{src: `println(save("svk").filename, load("m"))`, skel: "(S)"},
 }
 
 const slowN = 100000 // a full run of slow(slowN) takes some tens of milliseconds; the failing call gets 2 ms
@@ -410,7 +447,21 @@ func checkHistory(c *Ctx, noReg bool, h []input, baseObs []SessObs, withModel bo
 }
 
 func runC10(c *Ctx) {
-	_ = extensions.Init(nil) // library functions written in grol (keys, abs, str, printf, log2), eval, unjson
+	// library functions written in grol (keys, abs, str, printf, log2), eval, unjson, and load/save
+	_ = extensions.Init(&extensions.Config{HasLoad: true, HasSave: true})
+	// load()/save() work on plain names in the current directory: a scratch directory under the run directory
+	if abs, err := filepath.Abs(c.Out); err == nil {
+		c.Out = abs
+		libDir := filepath.Join(abs, "c10lib")
+		if os.MkdirAll(libDir, 0o755) == nil {
+			for name, content := range libFiles {
+				_ = os.WriteFile(filepath.Join(libDir, name), []byte(content), 0o644)
+			}
+			if cwd, err := os.Getwd(); err == nil && os.Chdir(libDir) == nil {
+				defer os.Chdir(cwd) //nolint:errcheck // best effort
+			}
+		}
+	}
 	c.Rule = "a history is non-trivial when at least one failing input is followed by a succeeding input whose output depends on the session (every generated history is: the base always ends with state-dependent inputs)"
 	if c.ReplayCase != "" {
 		noReg, h := decodeHist(c.ReplayCase)
@@ -519,6 +570,34 @@ func runC10(c *Ctx) {
 				// neutral low-depth inputs have an outcome that is not predicted: no model line for them
 				checkHistory(c, noReg, h, runHistory(c, noReg, base), !f.neutral)
 				c.Count("foreign-or-reentrant=" + f.fail)
+			}
+		}
+	}
+	// failures inside files evaluated by load(), then loading the same and other files again, and save()
+	nLoad := 3
+	if c.Thorough() {
+		nLoad = 40
+	}
+	for i := 0; i < nLoad; i++ {
+		for li, lf := range loadFailing {
+			for m := 1; m <= 2; m++ {
+				g := &hgen{r: c.R}
+				base := append(append([]input{}, preludeC10...), loadPrelude...)
+				base = append(base, input{src: lf.set, skel: "(S)"})
+				h := append([]input{}, base...)
+				for k := 0; k < m; k++ {
+					h = append(h, lf.fail)
+				}
+				for j := c.R.Intn(3); j > 0; j-- {
+					in := g.next()
+					base, h = append(base, in), append(h, in)
+				}
+				noReg := (i+li)%4 == 3
+				tail := append(append([]input{}, loadTail...), input{src: `cnt = cnt + 1; println(cnt)`, skel: "(S)"})
+				tail = append(tail, budgetProbes(c, noReg)...)
+				base, h = append(base, tail...), append(h, tail...)
+				checkHistory(c, noReg, h, runHistory(c, noReg, base), !lf.fail.neutral)
+				c.Count("load-family=" + lf.fail.fail)
 			}
 		}
 	}
